@@ -97,6 +97,9 @@ type Opts struct {
 	// Default 60s; executions normally take microseconds.
 	ExecTimeout time.Duration
 	OnHang      func(choices []int)
+	// Journal, if set, is called with the forced prefix before every execution
+	// (crash forensics for child processes: a Go fatal error cannot be recovered).
+	Journal func(forced []int)
 }
 
 // Stats is what an exploration measured.
@@ -324,6 +327,9 @@ func (e *explorer) runOne(c *Ctx, forced []int) {
 	c.fails = c.fails[:0]
 	c.nontrivial = false
 	c.skipped = false
+	if e.o.Journal != nil {
+		e.o.Journal(forced)
+	}
 	if e.started != nil {
 		f := append([]int(nil), forced...)
 		e.current[c.Worker].Store(&f)
